@@ -227,7 +227,8 @@ def trace_check(prop, tier, seed, plans, t0, extra_cov=None, jobs=12, build_prof
         # violation (no property fixes the order of propagation), but it is the moment to look
         # harder: the quick tier then runs the same plans once more at several times the size,
         # with other seeds, and the property's own rules judge those runs too.
-        drift = sx_info.get("step_exact_diverged", 0) + sx_info.get("step_exact_outcome_differs", 0)
+        drift = (sx_info.get("step_exact_diverged", 0) + sx_info.get("step_exact_outcome_differs", 0)
+                 + res.cover.get("graph_differs_from_model", 0))
         owned_so_far = [f for f in res.fails if owned_by(prop, f["rule"])]
         if tier == "quick" and drift and not owned_so_far and not mc_viol:
             log(f"[{prop}] conformance drift in {drift} replayed runs: deepening the quick run")
